@@ -47,8 +47,10 @@ class Scratch:
     """Private scratch directory of this process (under /verif/.work, removed at exit)."""
 
     def __init__(self):
-        os.makedirs(env.WORK_ROOT, exist_ok=True)
-        self.dir = tempfile.mkdtemp(prefix=f"w{os.getpid()}_", dir=env.WORK_ROOT)
+        # worker processes leave through os._exit (no atexit): the run's parent removes $VERIF_RUN_DIR as a whole
+        root = os.environ.get("VERIF_RUN_DIR") or env.WORK_ROOT
+        os.makedirs(root, exist_ok=True)
+        self.dir = tempfile.mkdtemp(prefix=f"w{os.getpid()}_", dir=root)
         self._pid = os.getpid()
         self._n = 0
         atexit.register(self.cleanup)
